@@ -207,6 +207,56 @@ op("ParentMemory", "LoadRange", need=2, pre=lambda S, M, PM: AND(PM is not None,
    structural=lambda S: [S[-2], S[-1]], post=lambda S, M, PM, c: (S[:-2] + PM[c[0]:c[0] + c[1]], M))
 
 
+STACK_LIMIT = 4096
+OPS["Stack::Dup"]["fits"] = lambda S, M, PM: len(S) + 1 <= STACK_LIMIT
+OPS["Stack::DupFrom"]["fits"] = lambda S, M, PM: len(S) <= STACK_LIMIT
+OPS["Stack::Load"]["fits"] = lambda S, M, PM: len(S) <= STACK_LIMIT
+OPS["Memory::Load"]["fits"] = lambda S, M, PM: len(S) <= STACK_LIMIT
+OPS["ParentMemory::Load"]["fits"] = lambda S, M, PM: len(S) <= STACK_LIMIT
+OPS["Memory::LoadRange"]["fits"] = lambda S, M, PM: b_norm(wide(S[-1]) + (len(S) - 2) <= z3.BitVecVal(STACK_LIMIT, 72))
+OPS["ParentMemory::LoadRange"]["fits"] = lambda S, M, PM: b_norm(wide(S[-1]) + (len(S) - 2) <= z3.BitVecVal(STACK_LIMIT, 72))
+OPS["Memory::Alloc"]["fits"] = lambda S, M, PM: len(S) <= STACK_LIMIT
+
+
+def _abs_top(x, pad):      # absolute index: negative, or at/above the padding
+    return OR(int_binop("Lt", x, W(0)), int_binop("Ge", x, W(pad)))
+
+
+def _cnt_small(x, big):    # count: <= 8, or larger than anything present
+    return OR(int_binop("Le", x, W(8)), int_binop("Gt", x, W(big)))
+
+
+LIM_ASSUME = {
+    "Stack::DupFrom": lambda S, ps, pm: _cnt_small(S[-1], len(S)),
+    "Stack::Load": lambda S, ps, pm: _abs_top(S[-1], ps),
+    "Stack::Drop": lambda S, ps, pm: _cnt_small(S[-1], len(S)),
+    "Stack::SelectRange": lambda S, ps, pm: _cnt_small(S[-2], len(S)),
+    "Stack::Reserve": lambda S, ps, pm: _cnt_small(S[-1], 5000),
+    "Memory::Alloc": lambda S, ps, pm: _cnt_small(S[-1], 11000),
+    "Memory::Free": lambda S, ps, pm: _abs_top(S[-1], pm),
+    "Memory::Load": lambda S, ps, pm: _abs_top(S[-1], pm),
+    "ParentMemory::Load": lambda S, ps, pm: _abs_top(S[-1], pm),
+    "Memory::LoadRange": lambda S, ps, pm: AND(_abs_top(S[-2], pm), _cnt_small(S[-1], 11000)),
+    "ParentMemory::LoadRange": lambda S, ps, pm: AND(_abs_top(S[-2], pm), _cnt_small(S[-1], 11000)),
+    "Memory::StoreRange": lambda S, ps, pm: AND(_abs_top(S[-1], pm), _cnt_small(S[-2], 5000)),
+}
+
+
+def push_limit(I, h):
+    """Push / Dup at a full stack"""
+    E = I.E
+    n = [4094, 4095, 4096][E.choose(3, "len")]
+    st = h.stack([W(0)] * n)
+    w = E.sym_int("w", I64)
+    rep = Agg("Repeat", [Cell(h.vec([]))])
+    r = h.call("vm", "step_op_stack", [h.enum("asm", "op::Stack", "Push", w), Int("usize", 0), h.ref(st), h.ref(rep)])
+    ln = len(st.cells[0].v.cells)
+    if ln > STACK_LIMIT: raise Violation("stack holds more than 4096 words after Push", E.model_for())
+    if (r.variant == "Ok") != (n < STACK_LIMIT): raise Violation("Push at the size limit: wrong verdict", E.model_for())
+    if r.variant == "Ok": check(E, b_not(int_binop("Eq", st.cells[0].v.cells[-1].v, w)), "pushed word differs")
+    return "full" if n == STACK_LIMIT else "room"
+
+
 # ------------------------------------------------------------------ generic harness
 def words_eq(E, actual_cells, expected, what):
     if len(actual_cells) != len(expected):
@@ -215,7 +265,9 @@ def words_eq(E, actual_cells, expected, what):
         check(E, b_not(int_binop("Eq", c.v, e)), f"{what}: word {i} differs from the reference model")
 
 
-def run_op(I, h, key, ns, nm):
+def run_op(I, h, key, ns, nm, pad_s=None, pad_m=None):
+    """pad_s / pad_m: lists of candidate numbers of concrete zero words placed BELOW the symbolic words
+    (limit harnesses: the machine state sits right at the 4096 / 10240 limits)"""
     E = I.E
     spec = OPS[key]
     grp, var = spec["group"], spec["variant"]
@@ -224,11 +276,18 @@ def run_op(I, h, key, ns, nm):
     uses_pm = grp == "ParentMemory"
     mlen = E.choose(nm + 1, "mlen") if (uses_mem or uses_pm) else 0
     has_pm = bool(E.choose(2, "has_parent")) if uses_pm else False
-    S = h.words("s", slen)
-    Mw = h.words("m", mlen) if uses_mem else []
-    PM = h.words("p", mlen) if (uses_pm and has_pm) else None
-    if spec.get("small") is not None and slen >= spec["need"]:
-        E.assume(spec["small"](S))          # allocation size kept small; limits are decided by h_limits
+    ps = pad_s[E.choose(len(pad_s), "pad_s")] if pad_s else 0
+    pm_ = pad_m[E.choose(len(pad_m), "pad_m")] if pad_m else 0
+    S = [W(0)] * ps + h.words("s", slen)
+    Mw = ([W(0)] * pm_ + h.words("m", mlen)) if uses_mem else []
+    PM = ([W(0)] * pm_ + h.words("p", mlen)) if (uses_pm and has_pm) else None
+    slen += ps
+    if (pad_s or pad_m) and slen >= spec["need"] and key in LIM_ASSUME:
+        # index / count operands address the symbolic top region (or are invalid): the padding words are all
+        # alike, enumerating each of the 4096 / 10240 positions would add nothing - stated bound
+        E.assume(LIM_ASSUME[key](S, ps, pm_))
+    if spec.get("small") is not None and slen >= spec["need"] and not (pad_s or pad_m):
+        E.assume(spec["small"](S))          # allocation size kept small; limits are decided by the lim_* harnesses
     st, mem = h.stack(list(S)), h.memory(list(Mw))
     opv = h.enum("asm", f"op::{grp}", var)
     if grp == "Alu": r = h.call("vm", "step_op_alu", [opv, h.ref(st)])
@@ -248,10 +307,17 @@ def run_op(I, h, key, ns, nm):
         if ok_: raise Violation("Ok with too few operands on the stack", E.model_for())
         return "err-too-few"
     valid = spec["pre"](S, Mw, PM)
+    if pad_s or pad_m:
+        # resource bounds: after every executed operation stack <= 4096 words, memory <= 10240 words
+        if len(st.cells[0].v.cells) > 4096: raise Violation("stack holds more than 4096 words after the operation", E.model_for())
+        if len(mem.cells[0].v.cells) > MEM_LIMIT: raise Violation("memory holds more than 10240 words after the operation", E.model_for())
+        lim_ok = spec.get("fits", lambda S, M, PM: True)(S, Mw, PM)
+    else:
+        lim_ok = True
     if not ok_:
-        check(E, valid, "Err although the documented precondition holds")
+        check(E, AND(valid, lim_ok), "Err although the documented precondition holds")
         return "err"
-    check(E, b_not(valid), "Ok although a documented failure condition holds")
+    check(E, b_not(AND(valid, lim_ok)), "Ok although a documented failure condition holds (or the result exceeds a size limit)")
     conc = []
     for x in (spec.get("structural") or (lambda S: []))(S):
         v = E.concretize(x, cap=4, label="operand")      # pinned by the path: exactly one value expected
@@ -268,7 +334,21 @@ def _mk(key):
     return fn
 
 
-HARNESSES = {}
+def _mk_lim(key):
+    def fn(I, h, ns=3, nm=2):
+        return run_op(I, h, key, ns, nm, pad_s=[4091, 4092, 4093], pad_m=[10236, 10237, 10238])
+    return fn
+
+
+HARNESSES = {"lim_stack_push": dict(props=["C05"], crates=["types", "asm", "vm"], fn=push_limit, witnesses=["full", "room"],
+                                    bound_text="stack of 4094 / 4095 / 4096 words, any pushed word", replay=dict(kind="vm_op", op="Stack::Push"))}
+for key in ("Stack::Dup", "Stack::DupFrom", "Stack::Reserve", "Stack::Load", "Memory::Alloc", "Memory::Load", "Memory::LoadRange",
+            "ParentMemory::Load", "ParentMemory::LoadRange", "Stack::Select", "Stack::SelectRange", "Stack::Drop", "Memory::Free",
+            "Memory::StoreRange"):
+    HARNESSES["lim_" + key.replace("::", "_").lower()] = dict(
+        props=["C05"], crates=["types", "asm", "vm"], fn=_mk_lim(key),
+        bound_text=f"{key}: stack of 4091..4093 zero words + <=3 symbolic words on top, memory/parent memory of 10236..10238 zero words + <=2 symbolic words: result respects the 4096 / 10240 limits",
+        witnesses=["ok", "err"], replay=dict(kind="vm_op", op=key, lim=True))
 for key in OPS:
     nm = "op_" + key.replace("::", "_").lower()
     HARNESSES[nm] = dict(
